@@ -34,7 +34,7 @@ func sameBatch(e vEvent, s sentBatch) bool {
 func runC08(tier string, _ []string) int {
 	c := vlib.NewCtx("C08", tier, "exploration")
 	vlib.SetPortBlock(8)
-	c.SetRule("per case a fresh instance, a real client.Manager and 3-6 instrumented clients (one with children, one nested under a group, one mirrored under two parents); then 30-200 acknowledged batches from one connection (so acceptance order = send order) with origins from {'', own id, sibling id, child id, 'user-x'} to the clients' nodes, their children, siblings, unrelated nodes and the groups above, node points and edge points, non-decreasing timestamps per identity; a marker point with a foreign origin closes each client's stream. Oracle per client: delivered callbacks == the sent batches addressed to its node or a descendant, in order, where foreign-origin batches MUST appear, self-authored ones ('' on the own node, origin == own id) MUST NOT, and '' on a descendant MAY; fold check: constructed config + delivered (+ self-authored) points via MergePoints/MergeEdgePoints == Decode of what GetNodes returns. distinct = (target kind, origin kind, node|edge, class) In every second case a node outside every client subtree is then attached below a client node while a second connection writes to it back to back; after the manager has settled, a foreign point written to the newcomer must reach that client (marker barrier on the client node). In every sixteenth case a client is kept busy (its Points call does not return) while 1500 foreign changes to its node are accepted; afterwards it must be told of all of them in order.")
+	c.SetRule("per case a fresh instance, a real client.Manager and 3-6 instrumented clients (one with children, one nested under a group, one mirrored under two parents); then 30-200 acknowledged batches from one connection (so acceptance order = send order) with origins from {'', own id, sibling id, child id, 'user-x'} to the clients' nodes, their children, siblings, unrelated nodes and the groups above, node points and edge points, non-decreasing timestamps per identity (one node batch in seventeen holds 13-40 points with identities repeated under one time stamp); a marker point with a foreign origin closes each client's stream. Oracle per client: delivered callbacks == the sent batches addressed to its node or a descendant, in order, where foreign-origin batches MUST appear, self-authored ones ('' on the own node, origin == own id) MUST NOT, and '' on a descendant MAY; fold check: constructed config + delivered (+ self-authored) points via MergePoints/MergeEdgePoints == Decode of what GetNodes returns. distinct = (target kind, origin kind, node|edge, class) In every second case a node outside every client subtree is then attached below a client node while a second connection writes to it back to back; after the manager has settled, a foreign point written to the newcomer must reach that client (marker barrier on the client node). In every sixteenth case a client is kept busy (its Points call does not return) while 1500 foreign changes to its node are accepted; afterwards it must be told of all of them in order.")
 	c.Assume("structure is fixed during the write phase (restarts belong to C07); tombstoned array elements are not generated (Decode documents that holes may remain)")
 	nRuns := c.N(40, 400)
 	wd := c.NewWatchdog()
@@ -187,6 +187,25 @@ func runC08(tier string, _ []string) int {
 					}
 					sb.Points = append(sb.Points, p)
 					lastSent[lk] = p
+				}
+				if len(sb.Points) > 0 && r.Chance(0.06) {
+					// a large batch (13-40 points) in which identities occur several times with one and the same time
+					// stamp: the last one in the batch is what the store keeps and what the client ends up with
+					for len(sb.Points) < 13+r.Intn(28) {
+						p := sb.Points[r.Intn(len(sb.Points))]
+						switch p.Type {
+						case "description", "tag", "opt":
+							p.Text = "b" + r.Ident(3)
+						default:
+							p.Value = float64(r.Intn(50))
+						}
+						if p.Type == "port" {
+							p.Value = float64(r.Intn(60000))
+						}
+						sb.Points = append(sb.Points, p)
+						lastSent[t+"|"+p.Type+"/"+p.Key] = p
+					}
+					c.Count("large_batches_with_repeated_identities", 1)
 				}
 			}
 			var e string
